@@ -10,7 +10,8 @@ from .common import A, checkpoint_typestate, is_current_task, queue_ends, writer
 
 EXPLANATION = ("Semaphore / CapacityLimiter (asyncio backend): every grant site is guarded by a free-capacity fact that survives to the "
                "write, FIFO queue ends, cancel-safe waiter protocol, undo symmetry, release outcome, reported numbers, writer tables."
-               " The over-release guard covers the hand-over to a waiter as well as the increment; a dequeued waiter is dropped only if its wait was cancelled; the shared constructor rejects a negative initial value and a max_value below it on every path and both concrete classes construct through it; `async with` cannot fail once it has acquired.")
+               " The over-release guard covers the hand-over to a waiter as well as the increment; a dequeued waiter is dropped only if its wait was cancelled; the shared constructor rejects a negative initial value and a max_value below it on every path and both concrete classes construct through it; `async with` cannot fail once it has acquired."
+               " An undo gives back only a token this call was granted (the acquire's own errors are not undone); a stored total is a non-negative int or +inf (never NaN).")
 NOT_DECIDED = ("Conservation over whole histories follows from the per-site rules only by a paper argument; real-valued totals other "
                "than the inf case, schedules and loop configurations are not explored.")
 
